@@ -33,12 +33,37 @@ def build_cases(tier, seed):
     return cases, n_single
 
 
+LIST_FORMS = [
+    # the items of an `in` list may be written as values of any kind: names, variables, braces round a value, calls
+    ('assign x "A" assign y "B" repeat in x and y as l begin print l end', ['A', 'B']),
+    ('assign x "A" assign y "B" repeat in {x} and {y} as l begin print l end', ['A', 'B']),
+    ('assign x "B" repeat in "C" and {x} and "A" as l begin print l end', ['C', 'B', 'A']),
+    ('define a begin return "A" end define b begin return "B" end repeat in [a] and [b] as l begin print l end', ['A', 'B']),
+    ('define a begin return "A" end repeat in [a] and "C" and [a] as l begin print l end', ['A', 'C', 'A']),
+    ('define g begin return "G1" end define h begin return "G2" end repeat in group [g] and group [h] as l begin print l end', ['A', 'B', 'C', 'Z']),
+    ('define g begin return "G2" end repeat in "A" and group [g] as l with v from 0 to 2 begin print l print v end', ['A', 0, 'C', 1.0, 'Z', 2.0]),
+    ('assign n 2 repeat {n} begin print 1 end repeat [round 1.6] begin print 2 end', [1, 1, 2, 2]),
+    # the loop variable after the loop (docs/iteration.rst: "it contains the value it had during the final iteration")
+]
+
+
+def list_forms_worker(args):
+    res = report.WorkResult('forms of loop lists and counts')
+    from vlib import world
+    world.start_function_trace()
+    common.fixed_scripts(res, 'list-forms', LIST_FORMS)
+    res.sample({'scripts': [t for t, _ in LIST_FORMS]})
+    res.functions = world.functions_seen()
+    return res
+
+
 def run(tier, seed):
     t0 = time.time()
     cases, n_single = build_cases(tier, seed)
     items = [{'case': c, 'timeout_ms': 6000, 'max_paths': 500 if tier == 'quick' else 3000,
               'budget_s': 15 if tier == 'quick' else 120} for c in cases]
-    results, skipped = report.run_pool(common.script_worker, items, budget_s=common.tier_budget(tier, 75, 1000))
+    items.append({'forms': True})
+    results, skipped = report.run_pool(lambda a: list_forms_worker(a) if 'forms' in a else common.script_worker(a), items, budget_s=common.tier_budget(tier, 75, 1000))
     return report.finish(
         PROP, tier, seed, 'exploration', results, skipped,
         rule='work item = one loop program (one of %d loop forms, optionally nested in another form and in a routine, break at '
